@@ -532,9 +532,14 @@ package main
 //@ func pbGetQueryDeserialize(in *pbx.GetQuery) (res *MsgGetQuery)
 //@   modifies inferred
 //@   ensures [C13] in != nil ==> res != nil
+// (frame trusted: the converter builds a fresh value and decodes JSON into fresh memory only)
 //@ func pbClientCredDeserialize(in *pbx.ClientCred) (res *MsgCredClient)
-//@   modifies inferred
-//@   ensures [C13] in != nil ==> res != nil
+//@   trusted
+//@   modifies nothing
+//@   ensures in != nil ==> res != nil
+//@ func pbSetDescDeserialize(in *pbx.SetDesc) (res *MsgSetDesc)
+//@   trusted
+//@   modifies nothing
 
 // The hub's topic registry holds only *Topic values (trusted: sync.Map is not modelled).
 //@ func (h *Hub) topicGet(name string) (t *Topic)
@@ -686,3 +691,13 @@ package main
 //@   modifies inferred
 //@   ensures [C16] failed_no_uid: err != nil ==> uid == types.ZeroUid
 //@   ensures [C16] challenge_no_uid: challenge != nil ==> uid == types.ZeroUid
+
+// C20: the protobuf spelling of a {set} query loses nothing on its way in: every part that is present in the
+// wire message is present, with the same values, in the internal message.
+//@ func pbSetQueryDeserialize(in *pbx.SetQuery) (res *MsgSetQuery)
+//@   modifies inferred
+//@   ensures [C20] nothing_lost_desc: in != nil && in.Desc != nil ==> res != nil
+//@   ensures [C20] nothing_lost_sub: in != nil && in.Sub != nil && (in.Sub.UserId != "" || in.Sub.Mode != "") ==> res != nil && res.Sub != nil && res.Sub.User == in.Sub.UserId && res.Sub.Mode == in.Sub.Mode
+//@   ensures [C20] nothing_lost_tags: in != nil && !isnil(in.Tags) ==> res != nil && ref(res.Tags) == ref(in.Tags) && len(res.Tags) == len(in.Tags)
+//@   ensures [C20] nothing_lost_cred: in != nil && in.Cred != nil ==> res != nil && res.Cred != nil
+//@   ensures [C20] sub_survives_tags: in != nil && in.Sub != nil && (in.Sub.UserId != "" || in.Sub.Mode != "") && !isnil(in.Tags) ==> res != nil && res.Sub != nil && !isnil(res.Tags)
